@@ -3,7 +3,7 @@
 
   c10.rt    <disable> <avc> <ncalls> (<mtu> <bare> <nunits> (<four> <nal>)*)*
             => panic | ok <ncalls> (<npkts> (<payload> <head> <res>)*)*
-  c10.dec   <avc> <nitems> (s <nal> | a <n> <nal>* | f <hdr> <n> <chunk>*)*
+  c10.dec   <avc> <nitems> (s <nal> | a <hdr> <n> <nal>* | f <hdr> <n> <chunk>*)*
             => panic | ok <npkts> (<payload> <head> <res>)*
   c15.h264  <avc> <npre> <payload>* <nframe> <payload>*
             => panic | ok <n> <res>* <n> <res>*
@@ -40,7 +40,7 @@ def rdItem : Rd Item := do
   let t ← Rd.tok
   match t with
   | "s" => do let n ← Rd.bytes; pure (.single n)
-  | "a" => do let ns ← Rd.list Rd.bytes; pure (.stapA ns)
+  | "a" => do let h ← Rd.u8; let ns ← Rd.list Rd.bytes; pure (.stapA h ns)
   | "f" => do let h ← Rd.u8; let cs ← Rd.list Rd.bytes; pure (.fuA h cs)
   | _ => Rd.fail
 
